@@ -564,7 +564,7 @@ def gen_case(rng, kind=None, spec=None):
             rng.choice(['counts', 'small', 'signed', 'dyadic', 'big'])
         spec = T.rand_spec(rng, min_r=r, max_r=r, min_c=cdim, max_c=cdim, values=values,
                            density=rng.choice([0.2, 0.5, 0.5, 0.8, 1.0]),
-                           md=rng.choice(['none', 'num', 'num', 'group', 'text', 'obs', 'samp']))
+                           md=rng.choice(['none', 'num', 'num', 'group', 'text', 'obs', 'samp', 'partial', 'partial']))
         if kind in ('norm', 'normalize'):
             spec['mat'] = [[abs(v) for v in row] for row in spec['mat']]
         # CSR and CSC start layouts in equal parts
